@@ -328,6 +328,14 @@ def observe(model, viol, site, probes, extra_tree):
                 viol('pairing', site, 'tree_transpose_map under mode %s in namespace %r gives %r' % (want_eff, ns, tm))
         except Exception as e:  # noqa: BLE001
             viol('pairing', site, 'tree_transpose(_map) raised %s: %s (namespace %r, mode %s)' % (type(e).__name__, e, ns, want_eff))
+        # the reductions fold the leaves in traversal order too (an order-recording fold shows it)
+        red_tree = {'b': 1, 'a': {'n': 2, 'm': 3}, 'c': defaultdict(int, {'z': 4, 'y': 5})}
+        want_fold = optree.tree_leaves(red_tree, namespace=ns)
+        for rname, got_fold in (('tree_reduce', optree.tree_reduce(lambda acc, x: acc + [x], red_tree, [], namespace=ns)),
+                                ('tree_sum', optree.tree_sum(optree.tree_map(lambda x: [x], red_tree, namespace=ns), [], is_leaf=lambda x: isinstance(x, list), namespace=ns)),
+                                ('tree_reduce(no init)', optree.tree_reduce(lambda acc, x: (acc if isinstance(acc, list) else [acc]) + [x], red_tree, namespace=ns))):
+            if got_fold != want_fold:
+                viol('order-mismatch', site, '%s in namespace %r under mode %s folds the leaves as %r; tree_leaves gives %r' % (rname, ns, want_eff, got_fold, want_fold))
         # every CALLING FORM of the dict constructors: a mapping, pairs, keyword children, and a mapping plus keyword children
         # (the keyword children come after the mapping's entries, as in dict(mapping, **kwargs))
         lf = optree.treespec_leaf()
